@@ -105,6 +105,9 @@ func (r *verifCRec) String() string {
 		res = r.readSt.String()
 	}
 	o := r.plan.String()
+	if r.plan.Kind == verifRRefresh {
+		o = "refresh(" + verifRShort(r.id) + ")"
+	}
 	if r.op != nil {
 		o = r.op.String()
 		if r.pred != nil {
